@@ -236,7 +236,7 @@ func init() {
 			return s
 		},
 		Run:  c18Run,
-		Rule: "(gap) 28 programs covering every construct as token lists: every single gap between adjacent tokens of a code tag replaced by each of {tab, newline, CRLF, two spaces, ' # c\\n' line comment, two consecutive comment lines, blank lines mixed with comment lines, and the empty string where gluing cannot change the tokens ('-' and '.' adjacent to letters/digits are never glued)}; all pairs of gaps; a comment tag / line-comment tag spliced in at every statement boundary inside blocks. (split) every sequence of <=3 (4 thorough) statements from 16 (let, assignment, if, if/else, for over a variable / a helper call / a method call, fn literal, call, helper with block, and <%= if/for/helper { %> output-tag blocks closed by a later tag) x every way of cutting the sequence into <% %> tags (including a statement directly after the closing brace of if/for/fn/helper block in the same tag) x a comment tag or a # line comment inserted at each statement boundary. Oracle: output identical to the canonical layout's (one statement per tag, single spaces); errors identical after replacing 'line N:'. Non-trivial: all re-layouts. (rich comments) between any two statements, 14 comment tags / line comments (also with %> and <% inside a line comment) whose text contains #, quotes, back-quotes, braces, <, code-like words, or is empty or multi-line: comment text is inert.",
+		Rule: "(gap) 28 programs covering every construct as token lists: every single gap between adjacent tokens of a code tag replaced by each of {tab, newline, CRLF, two spaces, ' # c\\n' line comment, two consecutive comment lines, blank lines mixed with comment lines, and the empty string where gluing cannot change the tokens ('-' and '.' adjacent to letters/digits are never glued)}; all pairs of gaps; a comment tag / line-comment tag spliced in at every statement boundary inside blocks. (split) every sequence of <=3 (4 thorough) statements from 16 (let, assignment, if, if/else, for over a variable / a helper call / a method call, fn literal, call, helper with block, and <%= if/for/helper { %> output-tag blocks closed by a later tag) x every way of cutting the sequence into <% %> tags (including a statement directly after the closing brace of if/for/fn/helper block in the same tag) x a comment tag or a # line comment inserted at each statement boundary. Oracle: output identical to the canonical layout's (one statement per tag, single spaces); errors identical after replacing 'line N:'. Non-trivial: all re-layouts. (rich comments) between any two statements, 18 comment tags / line comments (also with tag openers <% <%= <%# in the comment text) (also with %> and <% inside a line comment) whose text contains #, quotes, back-quotes, braces, <, code-like words, or is empty or multi-line: comment text is inert.",
 		Bound: func(th bool) string {
 			if th {
 				return "gap deviations <=2; statement sequences <=4"
@@ -353,7 +353,7 @@ func c18Split(t *engine.T, seq []int) {
 	if n == 2 {
 		// comment text is free text: the characters that mean something in code (#, quotes, braces, <) are inert in it
 		for ri, rich := range []string{
-			" %><%# see issue #12 %><% ", " %><%#c#d%><% ", " %><%# say \"hi\" %><% ", " %><%# it's `x` %><% ", " %><%# a { ( [ < b %><% ", " %><%# let x = 1 %><% ",
+			" %><%# see issue #12 %><% ", " %><%#c#d%><% ", " %><%# say \"hi\" %><% ", " %><%# it's `x` %><% ", " %><%# a { ( [ < b %><% ", " %><%# was: <% let a = 9 %><% ", " %><%# <%= a %><% ", " %><%# <%# nested %><% ", " # was: <% let a = 9\n ", " %><%# let x = 1 %><% ",
 			" %><%# one %><%# two # %><% ", " # see #12 \"q\" it's { ( <\n ", " # weight 100%> of the total\n ", " # a %> b <% c\n ", " # `\n ", " #\n ", " %><%#%><% ", " %><%# multi\n# line\n%><% ",
 		} {
 			c18Same(t, fmt.Sprintf("split %v rich-comment=%d", seq, ri), canonical, "<% "+c18Stmts[seq[0]]+rich+c18Stmts[seq[1]]+" %>"+c18Tail, true)
